@@ -100,6 +100,6 @@ def ref_judge(cx, term, ctx=None, fuel=4000):
         ty = rc.infer(term, ctx or [])
         return ("ok", ty, rc)
     except Reject as r:
-        return ("reject", r.why, rc)
+        return ("reject", r.why, rc, r.roles)
     except RefUnknown as u:
         return ("unknown", u.why, rc)
